@@ -87,8 +87,77 @@ mod imp {
         }
     }
 
+    /// `poolrun atomicmin <threads> <rounds> <calls-per-thread> <seed>`: the shared bound of the evaluator under contention.
+    /// Every round: a fresh AtomicMin, all threads released together, each makes <calls> set_min calls with pseudo-random values.
+    /// Checked against the sequential specification (Model/Evaluate.v: fetch_min): the final value is the minimum of all values
+    /// offered (and the initial one); a call that offered a value below everything else offered in its round returned true;
+    /// a call that returned true offered a value that was strictly below the initial value; at most one call per distinct value
+    /// returned true. Output `ok rounds=<n>` or `bad <what>`; a call that never returns is caught by the caller's watchdog.
+    fn atomicmin_main(a: &[String]) {
+        let threads: usize = a[2].parse().unwrap();
+        let rounds: usize = a[3].parse().unwrap();
+        let calls: usize = a[4].parse().unwrap();
+        let seed: u64 = a[5].parse().unwrap();
+        for r in 0..rounds {
+            let init = if r % 3 == 0 { None } else { Some(1000 + (r * 7919) % 5000) };
+            let am = AtomicMin::new(init);
+            let barrier = std::sync::Barrier::new(threads);
+            let results: Vec<Vec<(usize, bool)>> = std::thread::scope(|s| {
+                let hs: Vec<_> = (0..threads)
+                    .map(|t| {
+                        let am = &am;
+                        let barrier = &barrier;
+                        s.spawn(move || {
+                            let mut x = seed ^ ((r as u64) << 20) ^ ((t as u64) << 8) ^ 0x9E37_79B9_7F4A_7C15;
+                            let mut out = Vec::with_capacity(calls);
+                            barrier.wait();
+                            for k in 0..calls {
+                                x ^= x << 13;
+                                x ^= x >> 7;
+                                x ^= x << 17;
+                                // mostly decreasing offers so that many calls improve on the bound at the same time
+                                let v = (6000usize.saturating_sub(k * (6000 / calls.max(1)))) + (x % 97) as usize;
+                                out.push((v, am.set_min(v)));
+                            }
+                            out
+                        })
+                    })
+                    .collect();
+                hs.into_iter().map(|h| h.join().unwrap()).collect()
+            });
+            let all: Vec<(usize, bool)> = results.into_iter().flatten().collect();
+            let offered_min = all.iter().map(|p| p.0).min().unwrap();
+            let expect = init.map_or(offered_min, |i| i.min(offered_min));
+            if am.get() != Some(expect) {
+                println!("bad final value {:?}, expected {} (round {})", am.get(), expect, r);
+                return;
+            }
+            let mut trues: Vec<usize> = all.iter().filter(|p| p.1).map(|p| p.0).collect();
+            trues.sort_unstable();
+            if trues.windows(2).any(|w| w[0] == w[1]) {
+                println!("bad two calls offering the same value both returned true (round {})", r);
+                return;
+            }
+            if let Some(i) = init {
+                if trues.iter().any(|&v| v >= i) {
+                    println!("bad a call offering a value not below the initial bound returned true (round {})", r);
+                    return;
+                }
+            }
+            let below_init = init.map_or(true, |i| offered_min < i);
+            if below_init && !trues.contains(&offered_min) {
+                println!("bad the call that offered the overall minimum {} returned false (round {})", offered_min, r);
+                return;
+            }
+        }
+        println!("ok rounds={rounds}");
+    }
+
     pub fn main() {
         let a: Vec<String> = std::env::args().collect();
+        if a[1] == "atomicmin" {
+            return atomicmin_main(&a);
+        }
         let site = a[1].as_str();
         let threads: usize = a[2].parse().unwrap();
         let conc: usize = a[3].parse().unwrap();
